@@ -773,6 +773,11 @@ pub fn scenario(w: &mut World, ctx: &RunCtx, focus: Focus, states: &mut Vec<u64>
         Tier::Thorough => 20 + w.ch.choose("ops", 280),
     };
     let membership_ops = matches!(focus, Focus::C12) || w.ch.chance("membership_ops", 300);
+    if membership_ops {
+        // a restarted node and a peer whose handshake still lingers bounce repeated handshake messages at
+        // round-trip speed for up to two minutes: a longer round trip keeps such runs affordable
+        w.net.base_ms = 80;
+    }
     let lossy = matches!(focus, Focus::C11 | Focus::C12) && w.ch.chance("lossy", 300);
     if lossy {
         w.net.loss_pm = *w.ch.pick("loss_pm", &[50, 300]);
